@@ -213,3 +213,27 @@ M("C15", "artifact-key-hints-swapped", "artifact.py", "            xorkey = fobj
 M("C15", "artifact-xor-with-hints", "artifact.py", "            payload = utils.xor(data, xorkey)", "            payload = utils.xor(data, hints)", "C15.R6")
 T("C15", "twin-rename", "utils.py", "        d = saved + block", "        d = saved + block  # haystack")
 T("C15", "twin-len-slice", "utils.py", "        saved = d[-overlap_len:] if overlap_len else b\"\"", "        saved = d[len(d) - overlap_len :] if overlap_len else b\"\"")
+
+# =============================================================================== C14
+M("C14", "steps-by-reference-regression", "c2.py", "        self.tsteps: List[TransformStep] = list(steps)", "        self.tsteps: List[TransformStep] = steps", "C14.R1")
+M("C14", "client-sorts-settings", "client.py", "        self.uri = random.choice(self.bconfig.uris)", "        self.uri = random.choice(self.bconfig.uris)\n        self.bconfig.settings[\"SETTING_C2_REQUEST\"].sort()", "C14.R1")
+M("C14", "profile-pops-recover", "c2profile.py", "                c2_recover = []\n                for k, v in value:", "                c2_recover = []\n                value.reverse()\n                for k, v in value:", "C14.R1")
+M("C14", "c2http-caches-and-extends", "c2.py", "        self.metadata_cache: Dict[bytes, BeaconMetadata] = {}", "        self.metadata_cache: Dict[bytes, BeaconMetadata] = {}\n        self._post_steps = bconfig.settings[\"SETTING_C2_POSTREQ\"]\n        self._post_steps += [(\"print\", True)]", "C14.R1")
+M("C14", "pcap-writes-xorkey", "pcap.py", "                        self.bconfig = bconfig\n", "                        self.bconfig = bconfig\n                        bconfig.xorkey = b\"\\x00\"\n", "C14.R3")
+M("C14", "return-mutable-map", "beacon.py", "        return MappingProxyType(settings)", "        return dict(settings)", "C14.R2")
+M("C14", "recover-pops-steps", "c2.py", "        for step, step_val in self.rsteps:\n            step = step.lower()\n            if step == \"append\":\n                if isinstance(step_val, bytes):", "        self.rsteps.reverse()\n        for step, step_val in self.rsteps:\n            step = step.lower()\n            if step == \"append\":\n                if isinstance(step_val, bytes):", "C14.R4")
+T("C14", "twin-copy-via-slice", "c2.py", "        self.tsteps: List[TransformStep] = list(steps)", "        self.tsteps: List[TransformStep] = steps[:]")
+T("C14", "twin-local-sorted", "client.py", "        self.uri = random.choice(self.bconfig.uris)", "        self.uri = random.choice(self.bconfig.uris)\n        _steps = sorted(self.bconfig.settings[\"SETTING_C2_REQUEST\"], key=str)\n        _steps.reverse()")
+
+# =============================================================================== C19
+M("C19", "handlers-alias-regression", "client.py", "        handlers = list(self.task_map.get(command_id, []))", "        handlers = self.task_map.get(command_id, [])", "C19.R1")
+M("C19", "fallback-always", "client.py", "        if not handlers:\n            handlers = list(self.task_map.get(-1, []))", "        if True:\n            handlers = handlers + list(self.task_map.get(-1, []))", "C19.R2")
+M("C19", "double-dispatch", "client.py", "                        response = handler(task)\n                        if response:", "                        response = handler(task) or handler(task)\n                        if response:", "C19.R2")
+M("C19", "id-not-even", "client.py", "        self.beacon_id = (self.beacon_id - self.beacon_id % 2) & 0xFFFFFFFF", "        self.beacon_id = self.beacon_id & 0xFFFFFFFF", "C19.R3")
+M("C19", "id-range-unchecked", "client.py", "        if self.beacon_id > 0x7FFFFFFF:\n            raise ValueError(\"beacon_id must be less or equal than 2147483647\")\n", "", "C19.R3")
+M("C19", "random-between-seed-and-draw", "client.py", "        random.seed(self.beacon_id ^ 0xACCE55ED)\n        self.aes_rand", "        random.seed(self.beacon_id ^ 0xACCE55ED)\n        self.pid = pid or random.randrange(1000, 5000)\n        self.aes_rand", "C19.R4")
+M("C19", "seed-with-pid", "client.py", "        random.seed(self.beacon_id ^ 0xACCE55ED)", "        random.seed(self.beacon_id ^ self.pid)", "C19.R4")
+M("C19", "info-chars-regression", "client.py", "        info_bytes = info.encode()[:51]", "        info_bytes = info[:51].encode()", "C19.R5")
+M("C19", "sleep-plus-jitter", "client.py", "        return self.sleeptime - random.uniform(0, self.sleeptime * self.jitter / 100)", "        return self.sleeptime + random.uniform(0, self.sleeptime * self.jitter / 100)", "C19.R6")
+T("C19", "twin-sleep-reordered", "client.py", "        return self.sleeptime - random.uniform(0, self.sleeptime * self.jitter / 100)", "        jit = random.uniform(0, self.jitter * self.sleeptime / 100.0)\n        return self.sleeptime - jit")
+T("C19", "twin-id-mask-form", "client.py", "        self.beacon_id = (self.beacon_id - self.beacon_id % 2) & 0xFFFFFFFF", "        self.beacon_id = (self.beacon_id & ~1) & 0xFFFFFFFF")
